@@ -9,3 +9,5 @@ open Dashu.Props.C08
 #print axioms exact_when_fits
 #print axioms with_base_precision_documented
 #print axioms from_ieee_exact
+#print axioms parse_literal_exact
+#print axioms print_parse_round_trip
